@@ -2,7 +2,10 @@
 # tools/merge_branch.sh <branch>: merge a worker branch into main, auto-resolving the generated/assembled files.
 b=$1
 cd "$(dirname "$0")/.." || exit 2
+if [ -n "$(git status --porcelain)" ]; then echo "working tree not clean: commit first"; exit 2; fi
 git merge --no-commit --no-ff "$b" >/tmp/merge.$$.log 2>&1
+if ! git rev-parse -q --verify MERGE_HEAD >/dev/null; then echo "git merge did not start:"; cat /tmp/merge.$$.log; rm -f /tmp/merge.$$.log; exit 2; fi
+rm -f /tmp/merge.$$.log
 # generated files: never merged by content
 git rm -q --cached lean/CTV/Driver/Main.lean 2>/dev/null
 git rm -rq --cached lean/CTV/Audit 2>/dev/null; rm -rf lean/CTV/Audit
